@@ -141,11 +141,13 @@ void World::opEnc(const Item& op)
             typeChange = true;
     }
 
-    if (is("C10") && op.has("abort") && !specs.empty())
+    if (!is("C09") && op.has("abort") && !specs.empty())
     {
         // fault: an earlier call over these packets, with another frame size, that never returned (exception out of the
-        // caller's iterator). C10: what it left behind must not show in the call that follows.
-        const size_t amax = static_cast<size_t>(std::max<int64_t>(25, op.get("abmax", static_cast<int64_t>(maxB))));
+        // caller's iterator, or a failing allocation). C10: what it left behind must not show in the call that follows; the
+        // same holds for what C01 / C07 / C08 say about that following call. (Not C09: which counter values a call that
+        // never returned may have used up is not stated.)
+        const size_t amax = static_cast<size_t>(std::min<int64_t>(std::max<int64_t>(25, op.get("abmax", static_cast<int64_t>(maxB))), maxLimit));
         if (n.enc->encodeAborted(specs, std::min(minB, amax), amax, static_cast<size_t>(op.get("abort")), static_cast<int>(op.get("abwhere", 0))))
             fault(op.get("abwhere", 0) == 2 ? "encode-call-aborted-by-allocation-failure" : "encode-call-aborted-by-exception");
         res.apiCalls++;
